@@ -2,7 +2,7 @@
 DefaultStrategy, RwLock<()>, FillFastSlots; both flavours) against the evaluated Coq model
 Seq/SerdeModel.v on generated pointee values and store sequences, plus a direct oracle of the
 property statement on the implementation's output (search for a failing input)."""
-import os, sys, json, random, time, hashlib
+import subprocess, os, sys, json, random, time, hashlib
 HERE = os.path.dirname(os.path.abspath(__file__))
 TOOLS = os.path.dirname(HERE)
 ROOT = os.path.dirname(TOOLS)
@@ -286,6 +286,17 @@ def run(pid, cfg, tier, seed, workdir, already_broken):
     cases = [gen_case(rng, i) for i in range(n_cases)]
     de_cases = [gen_de_case(rng, n_cases + i) for i in range(n_de)]
     broken, findings = [], []
+
+    # the value being serialized stays protected for the whole serialization (serialize = load().serialize()):
+    # the pointee's Serialize impl replaces the container's value in the middle of its own serialization
+    try:
+        pr = subprocess.run([sx.exe(), "reentrant"], stdout=subprocess.PIPE, stderr=subprocess.STDOUT, timeout=120)
+        rtxt, rrc = pr.stdout.decode(errors="replace"), pr.returncode
+    except (subprocess.TimeoutExpired, OSError) as ex:
+        rtxt, rrc = repr(ex), -9
+    if rrc != 0 or "REENTRANT-OK" not in rtxt:
+        findings.append({"message": "C20 fails on the implementation: serializing a container is not load().serialize(): " + rtxt.strip()[-400:], "cls": None,
+                         "replay": {"case": "cd /verif/harness/seqx && cargo build --offline && target/debug/seqx reentrant", "impl_result": rtxt.splitlines()[-10:]}})
 
     rc, results, err = _run_cases(cases + de_cases, workdir, "serde")
     if len(results) != len(cases) + len(de_cases):
